@@ -150,7 +150,15 @@ Definition next_init (c : cfg) (k : nat) : phase :=
 Definition new_kid (c : nat) (pid : Z) : kid :=
   Build_kid c pid Running GWait false false false false false.
 
-(* childProcs[pid] = cmd; startWait(cmd, pid) *)
+(* The two statements that follow a successful doCommand, in code order, both BEFORE the OnChildSpawn hook:
+     childProcs[pid] = cmd      (record_child: from now on shutdownChildren reaches the child)
+     startWait(cmd, pid)        (start_wait: its Wait goroutine exists and holds a wg slot)
+   add_child is their composition (C39_add_child_order); a child with a Wait goroutine that is not
+   recorded would be waited for by wg.Wait() but never signalled. *)
+Definition record_child (pid : Z) (c : nat) (s : state) : state :=
+  Build_state (ph s) (map_set pid c (procs s)) (kids s) (exited s).
+Definition start_wait (pid : Z) (c : nat) (s : state) : state :=
+  Build_state (ph s) (procs s) (kids s ++ [new_kid c pid]) (exited s).
 Definition add_child (pid : Z) (s : state) (p : phase) : state :=
   let c := length (kids s) in
   Build_state p (map_set pid c (procs s)) (kids s ++ [new_kid c pid]) (exited s).
